@@ -325,3 +325,145 @@ def bin_on_curve(x, y, a, b, f):
     mul = lambda u, v: gf2_red(clmul(u, v), f)
     x2 = mul(x, x)
     return (mul(y, y) ^ mul(x, y)) == (mul(x2, x) ^ mul(a, x2) ^ b)
+
+
+# ------------------------------------------------------------------------------------ maps over Fp2
+class Fp2Maps(object):
+    """SSWU / SvdW / try-and-increment over F = Fp[u]/(u^2 - beta) (a model/tower.py Ext of degree 2) onto
+    y^2 = x^3 + a x + b, with RFC 9380's sgn0 for extension fields.  Elements are pairs of ints."""
+
+    def __init__(self, F2, a, b):
+        self.F = F2
+        self.p = F2.p
+        self.beta = F2.nr
+        self.a, self.b = a, b
+
+    # field helpers -----------------------------------------------------------------
+    def norm(self, x):
+        p = self.p
+        return (x[0] * x[0] - self.beta * x[1] * x[1]) % p
+
+    def is_sqr(self, x):
+        """x is a square in Fp2 iff its norm is a square in Fp"""
+        return is_sqr(self.norm(x), self.p)
+
+    def sqrt(self, x):
+        """a square root in Fp2 or None"""
+        p, F = self.p, self.F
+        a0, a1 = x[0] % p, x[1] % p
+        if a1 == 0:
+            s = sqrt_mod(a0, p)
+            if s is not None:
+                return (s, 0)
+            s = sqrt_mod(a0 * pow(self.beta, -1, p) % p, p)
+            return None if s is None else (0, s)
+        n = sqrt_mod(self.norm(x), p)
+        if n is None:
+            return None
+        i2 = pow(2, -1, p)
+        for cand in ((a0 + n) * i2 % p, (a0 - n) * i2 % p):
+            x0 = sqrt_mod(cand, p)
+            if x0 is not None and x0 != 0:
+                r = (x0, a1 * pow(2 * x0, -1, p) % p)
+                if F.eq(F.mul(r, r), (a0, a1)):
+                    return r
+        return None
+
+    @staticmethod
+    def sgn0(x):
+        s0, z0, s1 = x[0] & 1, int(x[0] == 0), x[1] & 1
+        return s0 | (z0 & s1)
+
+    def inv0(self, x):
+        return self.F.zero if self.F.is_zero(x) else self.F.inv(x)
+
+    def conj(self, x):
+        return (x[0] % self.p, -x[1] % self.p)
+
+    def g(self, x, a=None, b=None):
+        F = self.F
+        a = self.a if a is None else a
+        b = self.b if b is None else b
+        return F.add(F.add(F.mul(F.mul(x, x), x), F.mul(a, x)), b)
+
+    def fix_sign(self, y, t):
+        return self.F.neg(y) if self.sgn0(y) != self.sgn0(t) else y
+
+    # maps --------------------------------------------------------------------------
+    def sswu(self, t, Z, A=None, B=None):
+        F = self.F
+        A = self.a if A is None else A
+        B = self.b if B is None else B
+        zt2 = F.mul(Z, F.mul(t, t))
+        tv1 = self.inv0(F.add(F.mul(zt2, zt2), zt2))
+        mba = F.neg(F.mul(B, F.inv(A)))
+        if F.is_zero(tv1):
+            x1 = F.mul(B, F.inv(F.mul(Z, A)))
+        else:
+            x1 = F.mul(mba, F.add(F.one, tv1))
+        gx1 = self.g(x1, A, B)
+        if self.is_sqr(gx1):
+            x, y = x1, self.sqrt(gx1)
+        else:
+            x = F.mul(zt2, x1)
+            y = self.sqrt(self.g(x, A, B))
+        if y is None:
+            raise ArithmeticError("sswu over Fp2: no square candidate")
+        return x, self.fix_sign(y, t)
+
+    def horner(self, coeffs, x):
+        F = self.F
+        acc = F.zero
+        for c in reversed(coeffs):
+            acc = F.add(F.mul(acc, x), c)
+        return acc
+
+    def iso_map(self, P, iso):
+        F = self.F
+        x, y = P
+        xd, yd = self.horner(iso["xd"], x), self.horner(iso["yd"], x)
+        if F.is_zero(xd) or F.is_zero(yd):
+            return None
+        return (F.mul(self.horner(iso["xn"], x), F.inv(xd)), F.mul(F.mul(y, self.horner(iso["yn"], x)), F.inv(yd)))
+
+    def svdw_consts(self, Z):
+        F = self.F
+        gz = self.g(Z)
+        h = F.add(F.mul(F.small(3), F.mul(Z, Z)), F.mul(F.small(4), self.a))
+        c3 = self.sqrt(F.neg(F.mul(gz, h)))
+        if c3 is None or F.is_zero(c3):
+            raise ArithmeticError("svdw over Fp2: -g(Z)(3Z^2+4A) is not a non-zero square")
+        if self.sgn0(c3):
+            c3 = F.neg(c3)
+        return dict(c1=gz, c2=F.neg(F.mul(Z, F.inv(F.small(2)))), c3=c3,
+                    c4=F.neg(F.mul(F.small(4), F.mul(gz, F.inv(h)))))
+
+    def svdw(self, t, Z, c):
+        F = self.F
+        tv1 = F.mul(F.mul(t, t), c["c1"])
+        tv2 = F.add(F.one, tv1)
+        tv1 = F.sub(F.one, tv1)
+        tv3 = self.inv0(F.mul(tv1, tv2))
+        tv4 = F.mul(F.mul(F.mul(t, tv1), tv3), c["c3"])
+        x1 = F.sub(c["c2"], tv4)
+        x2 = F.add(c["c2"], tv4)
+        w = F.mul(F.mul(tv2, tv2), tv3)
+        x3 = F.add(Z, F.mul(c["c4"], F.mul(w, w)))
+        for x in (x1, x2, x3):
+            gx = self.g(x)
+            if self.is_sqr(gx):
+                break
+        y = self.sqrt(gx)
+        if y is None:
+            raise ArithmeticError("svdw over Fp2: no square candidate")
+        return x, self.fix_sign(y, t)
+
+    def tai(self, x0):
+        """x = (x0, 0), (x0 + 1, 0), ... until g(x) is a non-zero square (ep2_map_basic)"""
+        F = self.F
+        x = (x0 % self.p, 0)
+        while True:
+            gx = self.g(x)
+            if not F.is_zero(gx) and self.is_sqr(gx):
+                return x, self.sqrt(gx)
+            x = ((x[0] + 1) % self.p, 0)
